@@ -62,6 +62,10 @@ pub fn item<A: HC>(i: usize) -> A {
     items[i % items.len()]
 }
 
+fn doubled<T: Copy>(v: Vec<T>) -> Vec<T> {
+    v.into_iter().flat_map(|x| [x, x]).collect()
+}
+
 fn syms_of_ascii<A: HC>(h: &[u8]) -> R<Vec<A>> {
     h.iter().map(|&b| A::try_from_ascii(b).ok_or_else(|| Fail::BadOp("invalid symbol".into()))).collect()
 }
@@ -103,6 +107,17 @@ pub fn eval_v<A: HC>(v: &V) -> R<Seq<A>> {
                     let mut s = Seq::<A>::new();
                     Extend::extend(&mut s, syms_of_ascii::<A>(bytes)?);
                     s
+                }
+                // FromIterator over iterators whose size_hint is not exact / absent
+                "collectf" => doubled(syms_of_ascii::<A>(bytes)?).into_iter().enumerate().filter(|(i, _)| i % 2 == 0).map(|(_, x)| x).collect::<Seq<A>>(),
+                "collectn" => {
+                    let v = syms_of_ascii::<A>(bytes)?;
+                    let mut i = 0;
+                    std::iter::from_fn(move || {
+                        i += 1;
+                        v.get(i - 1).copied()
+                    })
+                    .collect::<Seq<A>>()
                 }
                 _ => return Err(Fail::BadOp("entry".into())),
             }
@@ -175,6 +190,35 @@ pub fn eval_v<A: HC>(v: &V) -> R<Seq<A>> {
         V::Ext(v, h) => {
             let mut s = eval_v::<A>(v)?;
             s.extend(syms_of_ascii::<A>(h)?);
+            s
+        }
+        V::ExtKind(kind, v, h) => {
+            let mut s = eval_v::<A>(v)?;
+            let syms = syms_of_ascii::<A>(h)?;
+            match kind.as_str() {
+                // upper size hint larger than what is yielded
+                "filter" => s.extend(doubled(syms).into_iter().enumerate().filter(|(i, _)| i % 2 == 0).map(|(_, x)| x)),
+                "takewhile" => {
+                    let n = syms.len();
+                    let mut padded = syms.clone();
+                    padded.extend(syms.iter().copied());
+                    s.extend(padded.into_iter().enumerate().take_while(move |(i, _)| *i < n).map(|(_, x)| x))
+                }
+                // no size hint at all
+                "fromfn" => {
+                    let mut i = 0;
+                    s.extend(std::iter::from_fn(move || {
+                        i += 1;
+                        syms.get(i - 1).copied()
+                    }))
+                }
+                // through the Extend trait, from another sequence's iterator
+                "trait" => {
+                    let other: Seq<A> = syms.into_iter().collect();
+                    Extend::extend(&mut s, other.iter());
+                }
+                _ => return Err(Fail::BadOp("ext kind".into())),
+            }
             s
         }
         V::Append(v, o) => {
@@ -488,6 +532,43 @@ pub fn query<A: HC>(q: &str, t: &mut Toks) -> R<String> {
                 bits,
                 if words.is_empty() { "-".to_string() } else { words.join(",") }
             )
+        }
+        "eqfresh" => {
+            // a value with any history equals (and hashes / orders like) a sequence freshly rebuilt from its symbols
+            let v = eval_v::<A>(&parse_v(t)?)?;
+            let fresh: Seq<A> = v.iter().collect();
+            let cmp = match A::seq_cmp(&v, &fresh) {
+                Some(o) => format!("{}", o == std::cmp::Ordering::Equal && A::seq_cmp(&fresh, &v) == Some(std::cmp::Ordering::Equal)),
+                None => "na".to_string(),
+            };
+            let mut m: std::collections::HashMap<Seq<A>, u8> = std::collections::HashMap::new();
+            m.insert(fresh.clone(), 1);
+            format!(
+                "{} {} {} {} {} {} {}",
+                v == fresh,
+                fresh == v,
+                &v == fresh && v == &fresh,
+                hash_events(&v) == hash_events(&fresh),
+                cmp,
+                m.get(&v).is_some(),
+                content(&v) == content(&fresh)
+            )
+        }
+        "hasheq" => {
+            // equal slices feed identical data to a hasher (relational: the hash format itself is free)
+            let a = parse_s(t)?;
+            let b = parse_s(t)?;
+            eval_s::<A, _>(&a, &mut |x| {
+                eval_s::<A, _>(&b, &mut |y| {
+                    let eq = x == y;
+                    Ok(if eq {
+                        let xo = x.to_owned();
+                        format!("eq:true hash:{}", hash_events(x) == hash_events(y) && hash_events(&xo) == hash_events(y))
+                    } else {
+                        "eq:false".to_string()
+                    })
+                })
+            })?
         }
         "mapget" => {
             // HashMap<Seq<A>, _>::get(&SeqSlice<A>) through Borrow + Hash/Eq agreement
